@@ -164,6 +164,35 @@ def run(prop: str, tier: str, seed: int) -> int:
             else:
                 failures.append({"id": f"C06/BaseRule.{ob['clause']}", "cfg": "BaseRule", "clause": ob["clause"], "shape": {}, "cases": [],
                                  "detail": ob["detail"], "witness": None, "labels": ob.get("labels", [])})
+    # ---------------- C07: the contract of clone / clone_from_root that the frame argument relies on
+    if prop == "C07":
+        from pyvc.explore import explore as _explore
+        from pyvc.interp import Interp as _Interp
+        from pyvc.values import OutOfSubset as _Oos
+
+        from . import c13
+
+        I2 = _Interp(REPO)
+        try:
+            I2.load_module("mathy_core.expressions")
+            jobs = [("clone_from_root", lambda ps: c13.clone_from_root_path(I2, ps))] + [
+                (f"{k}.clone", (lambda ps, k=k: c13.clone_path(I2, ps, k))) for k in c13.EXPR_KINDS
+            ]
+            for name, fn in jobs:
+                for o in _explore(fn):
+                    if o.error is not None:
+                        R.undecided.append(f"{name}: out-of-subset: {o.error}")
+                        continue
+                    for ob in o.result["obligations"]:
+                        n_obl += 1
+                        backends["pyvc-concrete"] += 1
+                        if ob["ok"]:
+                            n_ok += 1
+                        else:
+                            failures.append({"id": f"C07/{ob['clause']}", "cfg": name, "clause": ob["clause"], "shape": {}, "cases": [],
+                                             "detail": ob["detail"], "witness": None, "labels": o.result["labels"]})
+        except _Oos as e:
+            R.undecided.append(f"clone contracts: out-of-subset: {e}")
     # ---------------- classify failures
     new = []
     for f in failures:
